@@ -163,7 +163,8 @@ def gen_pairs(ctx, rng, count, ref=None):
         # options that must not disturb the evolution of the timelines (they change other parts of the document)
         for k, vals, p_ in (("events", ["ping", "scte35"], .12), ("ping__inband", ["0"], .1), ("acodec", ["ec-3", "any"], .1),
                             ("abr", ["0"], .12), ("base", ["0"], .12), ("leeway", ["0", "60"], .1),
-                            ("drm", ["all", "clearkey"], .2 if stream == "bbb" else 0), ("time", ["direct", "iso"], .1)):
+                            ("drm", ["all", "clearkey"], .2 if stream == "bbb" else 0), ("time", ["direct", "iso"], .1),
+                            ("drift", ["10", "3"], .12)):
             if rng.random() < p_:
                 opts[k] = rng.choice(vals)
         t1 = datetime.datetime(rng.choice([2022, 2024, 2030]), rng.randrange(1, 13), rng.randrange(2, 28),
@@ -264,6 +265,13 @@ def gen_pairs(ctx, rng, count, ref=None):
                 opts["mup"] = "none"
                 delta = datetime.timedelta(seconds=rng.choice([21, 9.5, 2]))
             kind = "none-override"
+        if i % 16 == 1:
+            # a drifting server clock (drift=N): the patch must be laid out for the same drifted instant as the
+            # full manifest, i.e. the option has to travel through the PatchLocation
+            man = "hand_made.mpd"
+            opts["patch"] = "1"
+            opts["drift"] = ["10", "3", "25"][(i // 16) % 3]
+            kind = "drift-patch" if kind not in ("loopedge", "rollover", "monthedge") else kind
         q = "&".join(f"{k}={v}" for k, v in opts.items() if not (k == "start" and v == "year" and i % 2 == 0))
         # (`start=year` is the server default: every other such case leaves it to the default)
         out.append((stream, f"/dash/live/{stream}/{man}?{q}", t1, t1 + delta, kind, opts, defaults))
@@ -384,7 +392,8 @@ def ch_pair(ctx, cases=None) -> Channel:
                 if a.rep_id in trk:
                     t = trk[a.rep_id]
                     for mm, rep, now in ((m1, a, t1), (m2, b, t2)):
-                        E = segchecks.us_since_epoch(now) - mm.ast_us
+                        # (ManifestContext lays a manifest out for `now - clockDrift`: the `drift` option)
+                        E = segchecks.us_since_epoch(now) - int(opts.get("drift", 0)) * 10 ** 6 - mm.ast_us
                         tsbd = mm.tsbd_us // 10 ** 6
                         tcF = (E - tsbd * 10 ** 6) * t.ts // 10 ** 6
                         lines.append(f"timeline live {t.durs_arg()} {t.R} {t.ts} {tcF} {tsbd}")
